@@ -1,42 +1,58 @@
 #!/usr/bin/env python3
-"""Builds the markdown table of DESIGN.md §12 from the trial logs (/tmp/trial_<id>.log) and seeded/*/meta.json"""
-import json, os, re, sys, glob
+"""Builds the markdown table of DESIGN.md §12 from the trial logs (<logdir>/trial_<id>.log, written by
+mutation_trial.sh) and seeded/*/meta.json.  With --update-meta the per-change result is also written into meta.json."""
+import json, os, re, sys
 
-logdir = sys.argv[1] if len(sys.argv) > 1 else "/tmp"
+args = [a for a in sys.argv[1:] if not a.startswith("--")]
+logdir = args[0] if args else "/tmp/trial2"
+update = "--update-meta" in sys.argv
+
+
+def caught_in(log):
+    caught = {}
+    done = set()
+    if not os.path.exists(log):
+        return None, done
+    for line in open(log):
+        m = re.search(r"VIOLATION property=(C\d\d) replay=\S+( no-failing-input-found)?", line)
+        if m:
+            kind = "nfi" if m.group(2) else "failing input"
+            if caught.get(m.group(1)) != "failing input":
+                caught[m.group(1)] = kind
+        m = re.search(r"\] (C\d\d): (ok|FAIL)", line)
+        if m:
+            done.add(m.group(1))
+    return caught, done
+
+
 rows = []
-ids = sorted(os.listdir("/verif/seeded"))
-for sid in ids:
+for sid in sorted(os.listdir("/verif/seeded")):
     mp = "/verif/seeded/%s/meta.json" % sid
     if not os.path.exists(mp):
         continue
     meta = json.load(open(mp))
-    log = os.path.join(logdir, "trial_%s.log" % sid)
-    caught = {}
-    if os.path.exists(log):
-        for line in open(log):
-            m = re.search(r"VIOLATION property=(C\d\d) replay=\S+( no-failing-input-found)?", line)
-            if m:
-                kind = "nfi" if m.group(2) else "failing input"
-                if caught.get(m.group(1)) != "failing input":
-                    caught[m.group(1)] = kind
+    caught, done = caught_in(os.path.join(logdir, "trial_%s.log" % sid))
+    if caught is None:
+        rows.append("| %s | %s | %s | %s | (not run) | |" % (sid, meta["property"], meta["breaks"], meta["needs_to_manifest"]))
+        continue
     target = meta["property"]
     tgt = caught.get(target)
     others = ", ".join("%s (%s)" % (k, v) for k, v in sorted(caught.items()) if k != target)
-    rows.append("| %s | %s | %s | %s | %s | %s |" % (sid, target, meta["breaks"], meta["needs_to_manifest"],
-                "**%s: %s**" % (target, tgt) if tgt else "**not caught by %s**" % target, others or "–"))
+    note = meta.get("attribution_note", "")
+    def short(t):
+        t = t.replace("|", "\\|")
+        return t if len(t) <= 230 else t[:227] + "…"
+    rows.append("| %s | %s | %s | %s | %s | %s |" % (sid, target, short(meta["breaks"]), short(meta["needs_to_manifest"]),
+                ("**%s: %s**" % (target, tgt) if tgt else "not flagged under %s%s" % (target, (" — " + note) if note else "")), others or "–"))
+    if update:
+        meta["detected_by"] = {"target_property": tgt or "not flagged", "other_properties": {k: v for k, v in sorted(caught.items()) if k != target},
+                               "checks_completed": len(done)}
+        json.dump(meta, open(mp, "w"), indent=1)
 print("| id | target | change | needs to manifest | target property's check | other checks that also fired |")
 print("|---|---|---|---|---|---|")
 print("\n".join(rows))
-# regression reverts
 for r in ("D1", "D2", "D3", "D4"):
-    log = os.path.join(logdir, "trial_R%s.log" % r)
-    if os.path.exists(log):
-        caught = {}
-        for line in open(log):
-            m = re.search(r"VIOLATION property=(C\d\d) replay=\S+( no-failing-input-found)?", line)
-            if m:
-                kind = "nfi" if m.group(2) else "failing input"
-                if caught.get(m.group(1)) != "failing input":
-                    caught[m.group(1)] = kind
+    caught, done = caught_in(os.path.join(logdir, "trial_R%s.log" % r))
+    if caught is not None:
         print("| R%s | (revert of fix %s) | re-introduces defect %s of the pinned tree | see §5 | %s | |" % (
             r, r, r, ", ".join("%s (%s)" % kv for kv in sorted(caught.items())) or "**not caught**"))
